@@ -156,7 +156,7 @@ void h_fe_negate(void) {
 void h_fe_add(void) {
     INPUT(secp256k1_fe, a); INPUT(secp256k1_fe, b); INPUT(int, ma); INPUT(int, mb);
     secp256k1_fe r;
-    __CPROVER_assume(ma >= 0 && mb >= 0 && ma + mb <= 32 && sa_fe_mag(&a, ma) && sa_fe_mag(&b, mb)); FE_FIELDS(a, ma, 0); FE_FIELDS(b, mb, 0);
+    __CPROVER_assume(ma >= 0 && mb >= 0 && ma <= 32 && mb <= 32 && ma + mb <= 32 && sa_fe_mag(&a, ma) && sa_fe_mag(&b, mb)); FE_FIELDS(a, ma, 0); FE_FIELDS(b, mb, 0);
     r = a;
     secp256k1_fe_add(&r, &b);
     __CPROVER_assert(fval(&r) == fval(&a) + fval(&b), "C05 fe_add: value is r + a");
@@ -164,15 +164,22 @@ void h_fe_add(void) {
     if (ma == 16 && mb == 16) REACH("fe_add 16+16");
 }
 void h_fe_mul_int(void) {
-    INPUT(secp256k1_fe, a); INPUT(int, m); INPUT(int, k);
-    secp256k1_fe r;
-    __CPROVER_assume(m >= 0 && m <= 32 && k >= 0 && k <= 32 && m * k <= 32 && sa_fe_mag(&a, m)); FE_FIELDS(a, m, 0);
-    r = a;
-    secp256k1_fe_mul_int_unchecked(&r, k);
-    __CPROVER_assert(fval(&r) == fval(&a) * W(k), "C05 fe_mul_int: value is r * a");
-    __CPROVER_assert(sa_fe_mag(&r, m * k), "C05 fe_mul_int: magnitude multiplied by a");
-    if (m == 4 && k == 8) REACH("fe_mul_int 4*8");
-    if (m == 1 && k == 32) REACH("fe_mul_int 1*32");
+    /* field.h: "a must be an integer constant expression in [0,32]; the magnitude of r times a must not exceed 32".
+     * The whole domain of a is enumerated with a CONSTANT multiplier per call (as in every real call site); the
+     * element and its magnitude stay symbolic. */
+    INPUT(secp256k1_fe, a); INPUT(int, m);
+    secp256k1_fe r; int k;
+    __CPROVER_assume(m >= 0 && m <= 32 && sa_fe_mag(&a, m)); FE_FIELDS(a, m, 0);
+    for (k = 0; k <= 32; k++) {
+        if (m * k <= 32) {
+            r = a;
+            secp256k1_fe_mul_int_unchecked(&r, k);
+            __CPROVER_assert(fval(&r) == fval(&a) * W(k), "C05 fe_mul_int: value is r * a");
+            __CPROVER_assert(sa_fe_mag(&r, m * k), "C05 fe_mul_int: magnitude multiplied by a");
+            if (m == 4 && k == 8) REACH("fe_mul_int 4*8");
+            if (m == 1 && k == 32) REACH("fe_mul_int 1*32");
+        }
+    }
 }
 void h_fe_half(void) {
     INPUT(secp256k1_fe, a); INPUT(int, m);
